@@ -346,17 +346,42 @@ def rule_half(ctx):
            f"`{src(c)}` has no upper bound `mtime <= now`: a timestamp in the future is written without a year and read back in the wrong year", construct="half:upper bound")
     # which branch is the year-less one: the branch under the positive test must use the format with %H
     br = p.parent.get(c_orig)
-    if isinstance(br, ast.If):
-        fm_true = [x.args[0].value for s_ in br.body for x in ast.walk(s_) if isinstance(x, ast.Call) and (dotted(x.func) or "").endswith("strftime") and isinstance(x.args[0], ast.Constant)]
-        fm_false = [x.args[0].value for s_ in br.orelse for x in ast.walk(s_) if isinstance(x, ast.Call) and (dotted(x.func) or "").endswith("strftime") and isinstance(x.args[0], ast.Constant)]
+    negs = 0
+    while isinstance(br, ast.UnaryOp) and isinstance(br.op, ast.Not):
+        negs += 1
+        br = p.parent.get(br)
+    if isinstance(br, ast.Assign) and len(br.targets) == 1 and isinstance(br.targets[0], ast.Name):
+        # a named condition: find the `if <name>:` / `if not <name>:` that uses it
+        nm = br.targets[0].id
+        for cand in walk_no_nested(bm):
+            if isinstance(cand, (ast.If, ast.IfExp)):
+                t_, k_ = cand.test, 0
+                while isinstance(t_, ast.UnaryOp) and isinstance(t_.op, ast.Not):
+                    t_, k_ = t_.operand, k_ + 1
+                if isinstance(t_, ast.Name) and t_.id == nm:
+                    br, negs = cand, negs + k_
+    if not isinstance(br, (ast.If, ast.IfExp)):
+        raise Inconclusive("C07.HALF: the statement that selects the LIST date format by the window test was not found")
+    if isinstance(br, (ast.If, ast.IfExp)):
+        b_true, b_false = (br.body, br.orelse) if isinstance(br, ast.If) else ([br.body], [br.orelse])
+        if negs % 2:
+            b_true, b_false = b_false, b_true
+        fm_true = [x.value for s_ in b_true for x in ast.walk(s_) if isinstance(x, ast.Constant) and isinstance(x.value, str) and "%" in x.value]
+        fm_false = [x.value for s_ in b_false for x in ast.walk(s_) if isinstance(x, ast.Constant) and isinstance(x.value, str) and "%" in x.value]
         ok = bool(fm_true) and bool(fm_false) and "%H" in fm_true[0] and "%Y" in fm_false[0]
         ctx.ob("C07.HALF", br, "inside the window the time-of-day form is used, outside the year form", ok, f"window branches use {fm_true} / {fm_false}", construct="half:branches")
     pd = p.method("BaseClient", "parse_ls_date")
     thr_c = []
     for n in walk_no_nested(pd):
-        if isinstance(n, ast.If) and isinstance(n.test, ast.Compare) and isinstance(n.test.left, ast.Name) and n.test.left.id == "diff":
-            op = n.test.ops[0]
-            rhs = n.test.comparators[0]
+        tst, flipped = (n.test, False) if isinstance(n, ast.If) else (None, False)
+        while isinstance(tst, ast.UnaryOp) and isinstance(tst.op, ast.Not):
+            tst, flipped = tst.operand, not flipped
+        if isinstance(n, ast.If) and isinstance(tst, ast.Compare) and isinstance(tst.left, ast.Name) and tst.left.id == "diff":
+            if flipped:
+                ctx.fail("C07.HALF", n, f"the year correction runs when `{src(tst)}` does NOT hold", construct=f"half:negated {src(tst)[:40]}")
+                continue
+            op = tst.ops[0]
+            rhs = tst.comparators[0]
             neg = isinstance(rhs, ast.UnaryOp) and isinstance(rhs.op, ast.USub)
             t = src(rhs.operand if neg else rhs)
             delta = None
@@ -367,6 +392,8 @@ def rule_half(ctx):
     if thr_s is None or not thr_c:
         raise Inconclusive("C07.HALF: thresholds not recognised")
     non_leap = [x for x in thr_c if "TWO_YEARS" not in x[0]]
+    ctx.ob("C07.HALF", pd, "the client corrects the year in both directions (more than T in the past / in the future)", len(non_leap) >= 2,
+           f"only {len(non_leap)} of the two year corrections (diff > T, diff < -T) were found in parse_ls_date", construct="half:corrections missing")
     for t, op, neg, delta, n in non_leap:
         ctx.ob("C07.HALF", n, f"client year inference uses the server's threshold ({t} vs {thr_s})", t == thr_s,
                f"server switches to the year form at `{thr_s}` but the client infers the year with `{t}`", construct=f"half:{thr_s} vs {t}")
